@@ -240,44 +240,6 @@ Proof.
     + apply IH. constructor; [|exact H'']. intros HI. apply Hd. right. exact HI.
 Qed.
 
-(** the pre-filter loop of LayerContents::load accepts exactly: distinct names, distinct
-    directories, public.default only in glyphs *)
-Definition reserved_ok (e : str * str) : Prop := fst e = DEFAULT_LAYER_NAME -> snd e = GLYPHS.
-Lemma lc_precheck_none : forall lc sn sd,
-  lc_precheck sn sd lc = None <->
-  (NoDup (map fst lc) /\ (forall n, In n (map fst lc) -> ~ In n sn)) /\
-  (NoDup (map snd lc) /\ (forall d, In d (map snd lc) -> ~ In d sd)) /\ Forall reserved_ok lc.
-Proof.
-  induction lc as [|e r IH]; intros sn sd; simpl.
-  - split; [intros _|reflexivity]. repeat split; try constructor; intros ? [].
-  - destruct (memb (fst e) sn) eqn:E1.
-    { split; [discriminate|]. intros [[_ H] _]. apply memb_in in E1. exfalso. apply (H (fst e)); auto. }
-    destruct (memb (snd e) sd) eqn:E2.
-    { split; [discriminate|]. intros [_ [[_ H] _]]. apply memb_in in E2. exfalso. apply (H (snd e)); auto. }
-    apply memb_not_in in E1. apply memb_not_in in E2.
-    destruct (str_eqb (fst e) DEFAULT_LAYER_NAME && negb (str_eqb (snd e) GLYPHS)) eqn:E3.
-    { split; [discriminate|]. intros [_ [_ H]]. inversion H as [|? ? Hr _]; subst.
-      apply andb_true_iff in E3. destruct E3 as [A B]. apply list_eqb_N_eq in A. apply negb_true_iff in B.
-      apply str_eqb_false in B. exfalso. apply B. apply Hr. exact A. }
-    rewrite IH. clear IH.
-    assert (Hres : reserved_ok e).
-    { intros A. apply andb_false_iff in E3. destruct E3 as [B|B].
-      - apply str_eqb_false in B. contradiction.
-      - apply negb_false_iff in B. apply list_eqb_N_eq in B. exact B. }
-    split.
-    + intros [[N1 D1] [[N2 D2] F]]. split; [|split].
-      * split; [constructor; [intros HI; apply (D1 _ HI); left; reflexivity|exact N1]|].
-        intros n [<-|HI]; [exact E1|]. intros Hn. apply (D1 n HI). right. exact Hn.
-      * split; [constructor; [intros HI; apply (D2 _ HI); left; reflexivity|exact N2]|].
-        intros n [<-|HI]; [exact E2|]. intros Hn. apply (D2 n HI). right. exact Hn.
-      * constructor; assumption.
-    + intros [[N1 D1] [[N2 D2] F]]. inversion N1; subst. inversion N2; subst. inversion F; subst.
-      split; [|split].
-      * split; [assumption|]. intros n HI [<-|Hn]; [contradiction|]. apply (D1 n); [right; exact HI|exact Hn].
-      * split; [assumption|]. intros n HI [<-|Hn]; [contradiction|]. apply (D2 n); [right; exact HI|exact Hn].
-      * assumption.
-Qed.
-
 (* ------------------------------------------------------------------------------------------ *)
 (** * Feature text *)
 
@@ -354,6 +316,45 @@ Local Notation info := (finfo (T_irest S) (T_gbody S) (T_dict S)).
 Local Notation lay := (layer (T_color S) (T_dict S) (T_glyph S)).
 Local Notation font := (font S).
 Local Notation tree := (tree S).
+
+(** the pre-filter loop of LayerContents::load accepts exactly: distinct names, distinct
+    directories, public.default only in glyphs *)
+Definition reserved_ok (e : str * str) : Prop := fst e = DEFAULT_LAYER_NAME -> snd e = GLYPHS.
+Lemma lc_precheck_none : forall lc sn sd,
+  lc_precheck S sn sd lc = None <->
+  (NoDup (map fst lc) /\ (forall n, In n (map fst lc) -> ~ In n sn)) /\
+  (NoDup (map (fun e => lower S (snd e)) lc) /\ (forall d, In d (map (fun e => lower S (snd e)) lc) -> ~ In d sd)) /\ Forall reserved_ok lc.
+Proof.
+  induction lc as [|e r IH]; intros sn sd; simpl.
+  - split; [intros _|reflexivity]. repeat split; try constructor; intros ? [].
+  - destruct (memb (fst e) sn) eqn:E1.
+    { split; [discriminate|]. intros [[_ H] _]. apply memb_in in E1. exfalso. apply (H (fst e)); auto. }
+    destruct (memb (lower S (snd e)) sd) eqn:E2.
+    { split; [discriminate|]. intros [_ [[_ H] _]]. apply memb_in in E2. exfalso. apply (H (lower S (snd e))); auto. }
+    apply memb_not_in in E1. apply memb_not_in in E2.
+    destruct (str_eqb (fst e) DEFAULT_LAYER_NAME && negb (str_eqb (snd e) GLYPHS)) eqn:E3.
+    { split; [discriminate|]. intros [_ [_ H]]. inversion H as [|? ? Hr _]; subst.
+      apply andb_true_iff in E3. destruct E3 as [A B]. apply list_eqb_N_eq in A. apply negb_true_iff in B.
+      apply str_eqb_false in B. exfalso. apply B. apply Hr. exact A. }
+    rewrite IH. clear IH.
+    assert (Hres : reserved_ok e).
+    { intros A. apply andb_false_iff in E3. destruct E3 as [B|B].
+      - apply str_eqb_false in B. contradiction.
+      - apply negb_false_iff in B. apply list_eqb_N_eq in B. exact B. }
+    split.
+    + intros [[N1 D1] [[N2 D2] F]]. split; [|split].
+      * split; [constructor; [intros HI; apply (D1 _ HI); left; reflexivity|exact N1]|].
+        intros n [<-|HI]; [exact E1|]. intros Hn. apply (D1 n HI). right. exact Hn.
+      * split; [constructor; [intros HI; apply (D2 _ HI); left; reflexivity|exact N2]|].
+        intros n [<-|HI]; [exact E2|]. intros Hn. apply (D2 n HI). right. exact Hn.
+      * constructor; assumption.
+    + intros [[N1 D1] [[N2 D2] F]]. inversion N1; subst. inversion N2; subst. inversion F; subst.
+      split; [|split].
+      * split; [assumption|]. intros n HI [<-|Hn]; [contradiction|]. apply (D1 n); [right; exact HI|exact Hn].
+      * split; [assumption|]. intros n HI [<-|Hn]; [contradiction|]. apply (D2 n); [right; exact HI|exact Hn].
+      * assumption.
+Qed.
+
 
 (** ** dictionaries *)
 Lemma deq_refl : forall d, deq S d d.
@@ -712,7 +713,9 @@ Lemma layer_rt : forall c o (l : lay),
             forall t : tree, alookup (l_dir l) (t_dirs S t) = Some d ->
               exists l', load_layer S t (l_name l, l_dir l) = Ok l' /\ layer_eq S l l'.
 Proof.
-  intros c o l [Hlib [Hcol [Hcont [ND HG]]]].
+  intros c o l [Hlib [Hcol [Hcont [NDl HG]]]].
+  assert (ND : NoDup (map (fun e : str * str * T_glyph S => snd (fst e)) (l_glyphs l))).
+  { apply (NoDup_map_inv (lower S)). rewrite map_map. exact NDl. }
   unfold spec_write_layer.
   destruct (rt _ (ok_contents S OK) o (contents_of S l) Hcont) as [cc [cl [Hc1 [Hc2 Hc3]]]].
   apply (contents_exact S OK) in Hc3. subst cl. rewrite Hc1. simpl.
@@ -725,8 +728,8 @@ Proof.
   destruct (glyphs_rt o (l_glyphs l) HG ND) as [glifs [Hg1 Hg2]]. rewrite Hg1. simpl.
   eexists. split; [reflexivity|]. intros t Ht.
   unfold load_layer. simpl. rewrite Ht. simpl. rewrite Hc2.
-  assert (Hnd : nodupb (map snd (contents_of S l)) = true).
-  { apply nodupb_iff. unfold contents_of. rewrite map_map. exact ND. }
+  assert (Hnd : nodupb (map (fun e => lower S (snd e)) (contents_of S l)) = true).
+  { apply nodupb_iff. unfold contents_of. rewrite map_map. exact NDl. }
   rewrite Hnd. cbn [negb].
   destruct (Hg2 (Build_ldir S (Some cc) lic glifs) eq_refl) as [gl' [Hm HF2]]. unfold contents_of. rewrite Hm. simpl.
   destruct lic as [lc|].
@@ -879,7 +882,8 @@ Lemma layers_loaded : forall c o (ls : list lay),
     forall t : tree, t_lcontents S t = Some lcc -> t_dirs S t = dirs ->
       exists ls', load_layers S t 3 = Ok ls' /\ Forall2 (layer_eq S) ls ls'.
 Proof.
-  intros c o ls [Hfirst [ND [HF [Hwf [NDn Hres]]]]].
+  intros c o ls [Hfirst [NDl [HF [Hwf [NDn Hres]]]]].
+  assert (ND : NoDup (map l_dir ls)) by (apply (NoDup_map_inv (lower S)); rewrite map_map; exact NDl).
   destruct ls as [|d r]; [tauto|]. destruct Hfirst as [Hd Hr].
   assert (Hwf' : wf (P_lc S) (lc_of S (spec_layer_order S c (d :: r)))).
   { apply (lc_wf S OK). apply (lc_wf S OK) in Hwf. unfold lc_of in *.
@@ -890,10 +894,10 @@ Proof.
   exists lcc, dirs. split; [exact H1|]. split; [exact Hw|]. intros t Ht1 Ht2.
   destruct (Hl t Ht2) as [ls' HB]. inversion HB as [|? d' ? r' Hdb Hrb]; subst.
   unfold load_layers. rewrite Ht1, H2. cbn [bind].
-  assert (Hpre : lc_precheck [] [] (lc_of S (spec_layer_order S c (d :: r))) = None).
+  assert (Hpre : lc_precheck S [] [] (lc_of S (spec_layer_order S c (d :: r))) = None).
   { apply lc_precheck_none. unfold lc_of, spec_layer_order. rewrite !map_map. cbn [fst snd].
     split; [split; [apply (NoDup_map_insert_nth l_name); exact NDn|intros ? _ []]|].
-    split; [split; [apply (NoDup_map_insert_nth l_dir); exact ND|intros ? _ []]|].
+    split; [split; [apply (NoDup_map_insert_nth (fun l : lay => lower S (l_dir l))); exact NDl|intros ? _ []]|].
     rewrite Forall_map. inversion Hres; subst. apply Forall_insert_nth; assumption. }
   rewrite Hpre. unfold spec_layer_order.
   assert (Hm : mapM (load_layer S t) (lc_of S (insert_nth (c_default_pos c) d r)) =
@@ -1222,7 +1226,7 @@ Proof.
   destruct (alookup (snd e) (t_dirs S t)) as [d|]; [|discriminate]. cbn [obind].
   destruct (ld_contents S d) as [cc|]; [|discriminate]. cbn [obind].
   destruct (dec (P_contents S) cc) as [cl|]; [|discriminate]. cbn [obind].
-  destruct (nodupb (map snd cl)); cbn [negb] in H; [|discriminate].
+  destruct (nodupb (map (fun e => lower S (snd e)) cl)); cbn [negb] in H; [|discriminate].
   destruct (mapM (load_glyph S d) cl) as [gl| |] eqn:Eg; simpl in H; try discriminate.
   rewrite (load_glyphs_spec _ _ _ Eg). cbn [obind].
   destruct (load_opt S (P_li S) (ld_info S d) 8) as [li| |] eqn:El; simpl in H; try discriminate.
@@ -1244,7 +1248,7 @@ Proof.
   intros t ls H Hdf. unfold load_layers in H.
   destruct (t_lcontents S t) as [lcc|] eqn:E1; [|discriminate].
   destruct (dec (P_lc S) lcc) as [lc|] eqn:E2; [|discriminate]. cbn [bind] in H.
-  destruct (lc_precheck [] [] lc); [discriminate|].
+  destruct (lc_precheck S [] [] lc); [discriminate|].
   destruct (mapM (load_layer S t) lc) as [ls0| |] eqn:Em; simpl in H; try discriminate.
   destruct (find_idx (is_default_dir S) ls0) as [i|] eqn:Ei; [|discriminate]. inversion H; subst ls.
   exists lcc, lc, ls0. split; [reflexivity|]. split; [exact E2|]. split.
@@ -1577,7 +1581,7 @@ Proof.
   intros t e l H. unfold load_layer in H.
   destruct (alookup (snd e) (t_dirs S t)) as [d|]; [|discriminate].
   destruct (ld_contents S d) as [cc|]; [|discriminate]. destruct (dec (P_contents S) cc) as [cl|]; [|discriminate].
-  destruct (nodupb (map snd cl)); cbn [negb] in H; [|discriminate].
+  destruct (nodupb (map (fun e => lower S (snd e)) cl)); cbn [negb] in H; [|discriminate].
   bind_inv H. inversion H; subst l; clear H. simpl. split; [reflexivity|].
   intros d' Hd' Hn. inversion Hd'; subst d'. rewrite Hn in E0. simpl in E0. inversion E0; subst. auto.
 Qed.
@@ -1614,7 +1618,7 @@ Proof.
   split. { intros Hn. rewrite F3, Hn. reflexivity. }
   split. { intros Hn. rewrite F4, Hn. reflexivity. }
   intros l d Hl Hd Hi. rewrite F2 in Hl. unfold load_layers in E8.
-  bind_inv E8. destruct (lc_precheck [] [] a); [discriminate|]. bind_inv E8.
+  bind_inv E8. destruct (lc_precheck S [] [] a); [discriminate|]. bind_inv E8.
   destruct (find_idx (is_default_dir S) a0); [|discriminate]. inversion E8 as [Hls]. rewrite <- Hls in Hl.
   apply in_move_to_front in Hl. apply mapM_Forall2 in E0. apply Forall2_flip in E0.
   destruct (Forall2_in_l _ _ _ _ E0 Hl) as [e [_ He]]. cbv beta in He.
@@ -1750,7 +1754,7 @@ Proof.
   destruct (alookup (snd e) (t_dirs S t)) as [d|] eqn:Ed; [|discriminate].
   destruct (ld_contents S d) as [cc|] eqn:Ec; [|discriminate].
   destruct (dec (P_contents S) cc) as [cl|] eqn:Ecl; [|discriminate].
-  destruct (nodupb (map snd cl)) eqn:End; cbn [negb] in H; [|discriminate]. apply nodupb_iff in End.
+  destruct (nodupb (map (fun e => lower S (snd e)) cl)) eqn:End; cbn [negb] in H; [|discriminate]. apply nodupb_iff in End.
   bind_inv H. inversion H; subst l; clear H. simpl. split; [reflexivity|]. split; [reflexivity|].
   apply mapM_Forall2 in E.
   assert (Hfst : map fst a = cl).
@@ -1769,8 +1773,8 @@ Proof.
   destruct Hli as [Hl1 Hl2]. split; [exact Hl1|]. split; [exact Hl2|].
   split. { unfold contents_of. simpl. rewrite Hfst. apply (cl_contents S CL _ _ Ecl). }
   split.
-  { replace (map (fun e0 : str * str * T_glyph S => snd (fst e0)) a) with (map snd (map fst a))
-      by (rewrite map_map; reflexivity).
+  { replace (map (fun e0 : str * str * T_glyph S => lower S (snd (fst e0))) a)
+      with (map (fun e0 : str * str => lower S (snd e0)) (map fst a)) by (rewrite map_map; reflexivity).
     rewrite Hfst. exact End. }
   apply Forall_forall. intros g Hg. apply Forall2_flip in E.
   destruct (Forall2_in_l _ _ _ _ E Hg) as [x [_ Hx]]. cbv beta in Hx. unfold load_glyph in Hx.
@@ -1786,7 +1790,7 @@ Proof.
   intros t ls H. unfold load_layers in H.
   destruct (t_lcontents S t) as [lcc|] eqn:E1; [|discriminate].
   destruct (dec (P_lc S) lcc) as [lc|] eqn:E2; [|discriminate]. cbn [bind] in H.
-  destruct (lc_precheck [] [] lc) eqn:Epre; [discriminate|].
+  destruct (lc_precheck S [] [] lc) eqn:Epre; [discriminate|].
   apply lc_precheck_none in Epre. destruct Epre as [[NDn _] [[NDd _] Hres]].
   destruct (mapM (load_layer S t) lc) as [ls0| |] eqn:Em; simpl in H; try discriminate.
   destruct (find_idx (is_default_dir S) ls0) as [i|] eqn:Ei; [|discriminate]. inversion H; subst ls; clear H.
@@ -1798,12 +1802,13 @@ Proof.
   assert (Hlcof : lc_of S ls0 = lc).
   { clear -Hall. induction Hall as [|e l lc ls0 (H1 & H2 & _) F IH]; [reflexivity|].
     unfold lc_of in *. simpl. rewrite IH, H1, H2. destruct e; reflexivity. }
-  assert (ND : NoDup (map l_dir ls0)) by (rewrite Hdirs; exact NDd).
+  assert (NDl : NoDup (map (fun l : lay => lower S (l_dir l)) ls0)).
+  { rewrite <- (map_map l_dir (lower S)), Hdirs, map_map. exact NDd. }
   assert (Hnames : map l_name ls0 = map fst lc).
   { apply Forall2_map_fst_eq. eapply Forall2_impl_in; [|exact Hall]. intros a b _ _ (H & _). exact H. }
   destruct (find_idx_nth _ _ _ Ei) as [d [Hd Hpd]].
   unfold move_to_front. rewrite Hd.
-  destruct (NoDup_remove_nth l_dir i ls0 d ND Hd) as [ND' Hothers].
+  destruct (NoDup_remove_nth (fun l : lay => lower S (l_dir l)) i ls0 d NDl Hd) as [ND' Hothers].
   assert (Hdg : l_dir d = GLYPHS) by (apply list_eqb_N_eq; exact Hpd).
   assert (Hok0 : Forall (layer_ok S) ls0).
   { apply Forall_forall. intros l Hl. apply Forall2_flip in Hall.
@@ -1813,7 +1818,7 @@ Proof.
   assert (NDn0 : NoDup (map l_name ls0)) by (rewrite Hnames; exact NDn).
   destruct (NoDup_remove_nth l_name i ls0 d NDn0 Hd) as [NDn' _].
   split; [split; [exact Hdg|]|split; [exact ND'|split; [|split; [|split; [exact NDn'|]]]]].
-  - apply Forall_forall. intros x Hx. rewrite <- Hdg. apply Hothers. exact Hx.
+  - apply Forall_forall. intros x Hx. rewrite <- Hdg. intros E. apply (Hothers x Hx). rewrite E. reflexivity.
   - apply Forall_forall. intros x Hx. rewrite Forall_forall in Hok0. apply Hok0. apply Hin. exact Hx.
   - apply (lc_wf S OK). unfold lc_of. rewrite Forall_map. apply Forall_forall. intros x Hx.
     apply (cl_lc S CL) in E2. apply (lc_wf S OK) in E2. rewrite <- Hlcof in E2. unfold lc_of in E2.
